@@ -198,7 +198,19 @@ func writeSchemaFile(dir, format, pkg, text string) (string, error) {
 var labFormats = []string{"jsonschema", "openapi", "cue"}
 var labFormatSuffix = map[string]string{"jsonschema": "js", "openapi": "oa", "cue": "cue"}
 
+// renderRespell: optional hook applied to every rendered schema text; a stream that explores spelling
+// variants of the source formats (C02: typed / one-member-enum constants) installs it. nil = renderer's own spelling.
+var renderRespell func(d *Defs, format string, out renderOut) renderOut
+
 func renderDefs(d *Defs, format, pkg string) renderOut {
+	out := renderDefs0(d, format, pkg)
+	if renderRespell != nil && out.Text != "" {
+		out = renderRespell(d, format, out)
+	}
+	return out
+}
+
+func renderDefs0(d *Defs, format, pkg string) renderOut {
 	switch format {
 	case "jsonschema":
 		return renderJSONSchema(d)
